@@ -23,6 +23,7 @@ PROP = {
         "src/dds/with_key/simpledatareader.rs": ["sdr"],
         "src/dds/participant.rs": ["c09_dp"],
         "src/dds/key.rs": ["c09_key"],
+        "src/structure/dds_cache.rs": ["c09_cache"],
     }),
     # closed under type flow: simpledatareader hands its last_read_sn map to TopicCache
     "shim_files": ["src/dds/with_key/simpledatareader.rs", "src/structure/dds_cache.rs"],
@@ -50,13 +51,17 @@ PROP = {
         _sc("c09_rel_value_hash_value", "reliable [V, dispose-by-hash, V]", True), _sc("c09_be_hash_hash_value", "best-effort [hash, hash, V]", True),
         _sc("c09_rel_two_writers", "reliable, arrival [w2:1 V, w1:1 short, w1:2 V]"), _sc("c09_be_two_writers", "best-effort, same"),
         _sc("c09_rel_two_writers_hash", "reliable, arrival [w2:1 V, w1:1 dispose-by-hash, w1:2 V]", True),
+        H("c09_rel_hash_value_eager", _s, "c09_rel_hash_value with SimpleDataReader::try_take_undecoded stubbed by an eager one-shot stand-in over an UNBOXED "
+          "transcription of TopicCache::get_changes_in_range_* (harness/c09_cache.rs): experiment, not decided either", "reliable [dispose-by-hash, V]",
+          tier="thorough", timeout=2400),
     ],
     "bounds": {"unwind": 17, "CAP": 4, "changes": "kernels: 1; scenarios: n <= 3 from 1-2 writers", "keys": "0..2 (u8 key, hash = padded CDR_BE byte, no MD5)",
                "payload": "2 bytes (VK{k:u8,v:u8}); representation id any 16-bit value; key hash bytes 0 and 15 symbolic"},
     "outside": [
         "THE LOOP of try_take_one_with under the solver: every harness that lets a change travel from the boxed cache iterator "
         "(Box<dyn Iterator> over FlatMap/FilterMap) into deserialize_with did not finish in 400-600 s / 2.4-4.5 GB, for ONE change, with the cache on the heap "
-        "or in a typed local, with --max-field-sensitivity-array-size 64..16384 (iterator alone: 11-38 s; deserialize_with alone: 37-130 s). "
+        "or in a typed local, with --max-field-sensitivity-array-size 64..16384, with SHIM_CAP 2, with try_take_undecoded stubbed by an eager one-shot iterator "
+        "(boxed real iterator or unboxed transcription, with or without re-lookup of the element by a concrete timestamp) (iterator alone: 11-38 s; deserialize_with alone: 37-130 s). "
         "The scenario harnesses (tier thorough) are therefore UNDECIDED under Kani; the non-termination on an unknown key hash is confirmed natively "
         "(c09_native_unknown_hash_then_value_returns, and the scenario harnesses replayed on hand-made value files)",
         "no_key wrapper, async stream and iterator wrappers, with_key::DataReader glue (thin over the same call)",
@@ -71,5 +76,5 @@ PROP = {
     "explanation": "C09: SimpleDataReader::{deserialize_with, try_take_one_with} on a real reader object over a real TopicCache.",
     "technique": "Kani/CBMC bounded symbolic model checking of the real SimpleDataReader object (deserialize_with decided; try_take_one_with loop harnesses written, undecided)",
     "level_text": "SAT-solver verdict over all payload bytes / representation ids / key hashes for the classification of one change; the loop itself is only demonstrated natively.",
-    "level_note": "Trusted: Kani/CBMC/CaDiCaL, container shim, environment stubs listed in evidence.",
+    "level_note": "PARTIAL CLAIM: the solver decides only how ONE change is classified by the real deserialize_with on a real SimpleDataReader object (reported / skipped / delivered, never UnknownKey for a decodable change). The TERMINATION clause of C09 (every read/take returns in bounded time) is NOT decided: no harness that runs the try_take_one_with loop finished under Kani (18 scenarios in the thorough tier, four encodings tried, DESIGN.md 8.3). The hang on an unknown key hash was demonstrated natively and repaired in /repo (fix: 3387979). Trusted: Kani/CBMC/CaDiCaL, container shim, environment stubs listed in evidence.",
 }
